@@ -1,8 +1,11 @@
 #!/bin/bash
 # usage: tools/evalseed.sh <PROP> <A|B> [extra check ids...]
-# Confirms a sub-agent's mutation in a scratch worktree (applies, builds, suite green,
-# demo fails with it and passes without), then runs the property's quick check (and any
-# extra ones) against /repo with the mutation applied, and files it under seeded/.
+# Confirms a sub-agent's change in a scratch worktree of /repo (applies, builds, pinned
+# suite green, demonstration fails with it and passes without), then runs the property's
+# quick check (and any extra ones) against that worktree with the change applied
+# (VERIF_REPO/VERIF_OUT: /repo itself and /verif/evidence are not touched, so several
+# evaluations can run side by side), and files the change under seeded/.
+# TIER=thorough evaluates with the thorough tier instead.
 set -u
 export GOFLAGS=-mod=mod GOPROXY=off GOSUMDB=off GOTOOLCHAIN=local
 P=$1; V=$2; shift 2
@@ -16,30 +19,40 @@ cleanup() { git -C /repo worktree remove --force "$WT/w" >/dev/null 2>&1; rm -rf
 trap cleanup EXIT
 cd "$WT/w"
 res_clean=$( (cd "$WT/w" && timeout 900 bash "$DEMO/run.sh" >/dev/null 2>&1); echo $?)
+git checkout -q -- . ; git clean -fdq
 git apply "$DIFF" || { echo "APPLY-FAIL"; exit 3; }
 build=$( (go build ./... >/dev/null 2>&1); echo $?)
 tests=$( (go test -vet=off -count=1 ./... >/dev/null 2>&1); echo $?)
 res_mut=$( (cd "$WT/w" && timeout 900 bash "$DEMO/run.sh" >/dev/null 2>&1); echo $?)
 git checkout -q -- . ; git clean -fdq
 echo "confirm: build=$build tests=$tests demo_clean=$res_clean demo_mut=$res_mut"
+git apply "$DIFF"
 cd /verif
 det=""
+mkdir -p "$WT/out"
 for id in $P "$@"; do
-  r=$(tools/trypatch.sh "$DIFF" $id 2>&1 | head -1)
-  echo "  check: $r" | cut -c1-200
-  det="$det $id:$(echo "$r" | sed -n 's/.* rc=\([0-9]*\).*/\1/p')"
+  out=$(VERIF_REPO="$WT/w" VERIF_OUT="$WT/out" timeout 3000 ./verif check "$id" --tier "${TIER:-quick}" 2>"$WT/err.$id")
+  rc=$?
+  echo "  check: $id rc=$rc $(echo "$out" | grep -m1 'VIOLATION\|KNOWN')" | cut -c1-200
+  [ $rc -ne 0 ] && grep -m2 '^  ' "$WT/err.$id" | cut -c1-300
+  det="$det $id:$rc"
 done
 D=/verif/seeded/$P-$V
 mkdir -p "$D"
 cp "$DIFF" "$D/patch.diff"; rm -rf "$D/demo"; cp -r "$DEMO" "$D/demo"
-python3 - "$P" "$V" "$build" "$tests" "$res_clean" "$res_mut" "$det" <<'PY'
+python3 - "$P" "$V" "$build" "$tests" "$res_clean" "$res_mut" "$det" "${TIER:-quick}" <<'PY'
 import json,sys,re,os
-P,V,build,tests,clean,mut,det=sys.argv[1:8]
+P,V,build,tests,clean,mut,det,tier=sys.argv[1:9]
 notes=open('/tmp/wt/%s-out/notes.md'%P).read() if os.path.exists('/tmp/wt/%s-out/notes.md'%P) else ''
+mp='/verif/seeded/%s-%s/meta.json'%(P,V)
+old=json.load(open(mp)) if os.path.exists(mp) else {}
+runs=old.get("checks_run",{})
+for k,v in (x.split(':') for x in det.split()):
+    runs[k if tier=="quick" else k+"/"+tier]=("detected" if v=="1" else "missed" if v=="0" else "inconclusive(rc=%s)"%v)
 meta={"property":P,"variant":V,"source":"independent sub-agent given only the property text and its own worktree",
  "confirmed":{"builds":build=="0","suite_green":tests=="0","demo_passes_without_change":clean=="0","demo_fails_with_change":mut!="0"},
- "checks_run":{k:("detected" if v=="1" else "missed" if v=="0" else "inconclusive(rc=%s)"%v) for k,v in (x.split(':') for x in det.split())},
+ "checks_run":runs,
  "ran":"tools/evalseed.sh %s %s"%(P,V),"notes":notes[:6000]}
-json.dump(meta,open('/verif/seeded/%s-%s/meta.json'%(P,V),'w'),indent=1)
+json.dump(meta,open(mp,'w'),indent=1)
 print(json.dumps(meta["confirmed"]), meta["checks_run"])
 PY
